@@ -36,7 +36,7 @@ def VarG : Var → Prop
   | .mk .struct _ a cs => VarsG cs ∧ (keys a ++ cs.map Var.name).Nodup
   | .mk .seq _ a cs => VarsG cs ∧ (keys a ++ cs.map Var.name).Nodup
   | .mk .base _ a cs => (keys a).Nodup ∧ cs = []
-  | .mk .grid _ a cs => (keys a).Nodup ∧ ∀ m ∈ cs, m.children = [] ∧ m.name ∉ keys a
+  | .mk .grid _ a cs => (keys a).Nodup ∧ ∀ m ∈ cs, m.children = [] ∧ ∀ e, dget a m.name ≠ some (.dict e)
 def VarsG : List Var → Prop
   | [] => True
   | v :: rest => VarG v ∧ VarsG rest
@@ -57,6 +57,39 @@ theorem sortKeys_perm (l : Dict) : (sortKeys l).Perm l := by
   | cons kv rest ih => exact (insKey_perm kv _).trans (List.Perm.cons kv ih)
 
 theorem keys_sort_perm (l : Dict) : (keys (sortKeys l)).Perm (keys l) := (sortKeys_perm l).map _
+
+/-- on a dict with distinct keys, lookup is membership of the pair -/
+theorem dget_eq_some_iff (l : Dict) (h : (keys l).Nodup) (k : Text) (v : AVal) :
+    dget l k = some v ↔ (k, v) ∈ l := by
+  induction l with
+  | nil => simp [dget_nil]
+  | cons kv rest ih =>
+    obtain ⟨a, b⟩ := kv
+    have hn : a ∉ keys rest ∧ (keys rest).Nodup := by simpa [keys] using h
+    rw [dget_cons]
+    by_cases hk : k = a
+    · subst hk
+      simp only [if_pos, List.mem_cons, Prod.mk.injEq, true_and]
+      constructor
+      · intro e; injection e with e; exact Or.inl e.symm
+      · rintro (e | e)
+        · rw [e]
+        · exact absurd (List.mem_map_of_mem (f := (·.1)) e) hn.1
+    · simp only [List.mem_cons, Prod.mk.injEq, hk, false_and, false_or, if_false]
+      exact ih hn.2
+
+/-- `sorted(keys)` does not change what a name maps to -/
+theorem dget_sortKeys (a : Dict) (h : (keys a).Nodup) (k : Text) : dget (sortKeys a) k = dget a k := by
+  have hs : (keys (sortKeys a)).Nodup := (keys_sort_perm a).nodup_iff.mpr h
+  cases hv : dget a k with
+  | none =>
+    cases hv' : dget (sortKeys a) k with
+    | none => rfl
+    | some v =>
+      have := (sortKeys_perm a).mem_iff.mp ((dget_eq_some_iff _ hs k v).mp hv')
+      rw [(dget_eq_some_iff a h k v).mpr this] at hv; cases hv
+  | some v =>
+    exact (dget_eq_some_iff _ hs k v).mpr ((sortKeys_perm a).mem_iff.mpr ((dget_eq_some_iff a h k v).mp hv))
 
 theorem nodup_sort_append (a : Dict) (xs : List Text) (h : (keys a ++ xs).Nodup) :
     (keys (sortKeys a) ++ xs).Nodup :=
@@ -150,17 +183,24 @@ theorem own_step (B S : Dict) (n : Text) (hn : n ∉ keys B) (hS : (keys S).Nodu
     nestedStep (B ++ [(n, .dict S)]) [n] [] = .ok (B, S) := by
   have h1 := dget_last B n (.dict S) hn
   have h2 : dupdate [] S = S := by simpa using dupdate_nodup S [] (by simpa using hS)
-  simp [nestedStep, reduceGet, h1, pyUpdate, h2, setNested, derase_append_single B n _ hn]
+  simp [nestedStep, reduceGet, h1, h2, setNested, derase_append_single B n _ hn]
 
-/-- grid members: no container, nothing happens -/
-theorem members_step (M : Dict) (ms : List Var) (h : ∀ m ∈ ms, m.name ∉ keys M) :
+/-- grid members: no container — at most a plain attribute of the grid with the member's name, which stays where it
+    is (the repaired `add_attributes`) — nothing happens -/
+theorem members_step (M : Dict) (ms : List Var) (h : ∀ m ∈ ms, ∀ e, dget M m.name ≠ some (.dict e)) :
     nestedAll M (ms.map fun m => [m.name]) = .ok (M, ms.map fun m => ([m.name], [])) := by
   induction ms with
   | nil => simp [nestedAll]
   | cons m rest ih =>
-    have hm := dget_none_of_not_mem M m.name (h m (by simp))
+    have hm := h m (by simp)
     have := ih (fun x hx => h x (by simp [hx]))
-    simp [nestedAll, nestedStep, reduceGet, hm, this]
+    cases hg : dget M m.name with
+    | none => simp [nestedAll, nestedStep, reduceGet, hg, this]
+    | some v =>
+      cases v with
+      | sc y => simp [nestedAll, nestedStep, reduceGet, hg, this]
+      | list y => simp [nestedAll, nestedStep, reduceGet, hg, this]
+      | dict e => exact absurd hg (hm e)
 
 theorem walk_leaves (ms : List Var) (h : ∀ m ∈ ms, m.children = []) :
     walkVars [] ms = ms.map fun m => [m.name] := by
